@@ -7,6 +7,7 @@ import Amgcl.Proofs.RelaxCheck
 import Amgcl.Proofs.RelaxIlu0
 import Amgcl.Model.RelaxIluk
 import Amgcl.Proofs.RelaxIlukLoop
+import Amgcl.Proofs.RelaxIlukLevels
 import Mathlib.Algebra.Field.Rat
 import Mathlib.Algebra.Order.Ring.Rat
 /-!
@@ -546,7 +547,8 @@ the traced run `ilukFactorT` of `Model/RelaxIlukTrace.lean`, whose first compone
 Consequences: a position at which nothing was discarded satisfies `(LU)_ij = a_ij` (`iluk_entry_of_not_discarded`);
 if no discarded contribution went to a position that has a slot at the end of its row — the decidable run predicate
 `ilukNoLateSlotb`, exactly the negation of the K01 situation — the identity holds on the whole final pattern
-(`iluk_on_pattern_of_no_late_discard`); if nothing was discarded at all (`ilukNoDiscardb`) ILU(k) is the complete
+(`iluk_on_pattern_of_no_late_discard`), which is the a-priori level-of-fill pattern `patLevel A k` of the checker
+(`iluk_slots_are_level_pattern`, `iluk_on_level_pattern`, `iluk_factors_in_level_pattern`); if nothing was discarded at all (`ilukNoDiscardb`) ILU(k) is the complete
 factorisation `(I+L)(D⁻¹+U) = A` (`iluk_exact_of_no_discard`) and `apply` is the exact inverse
 (`iluk_exact_inverse`); rows `i ≤ k` never discard anything (`iluk_rows_le_fill_complete`: levels in row `i` are
 `≤ i`), so `n ≤ k + 1` — in particular `k ≥ n` — implies `ilukNoDiscardb` (`iluk_no_discard_of_large_fill`,
@@ -630,6 +632,71 @@ theorem iluk_on_pattern_of_no_late_discard (k : Nat) (ω : K) (A : CRS K) (hA : 
   have h2 := h1 cv hcv
   rw [heq, hslot] at h2
   exact absurd h2 (by decide)
+
+/-- **the pattern the run admits is the a-priori level-of-fill pattern.**  At the end of row `i` of a successful
+constructor a slot exists at column `j` (diagonal, or stored in the `L` / `U` row) iff `patLevel A k i j`, the symbolic
+level-of-fill pattern (`fillLevels`, amgcl's rule `lev = max(lev_ik, lev_kj) + 1 ≤ k`) that the checker
+`luOnPatternb` uses as admitted pattern.  No hypothesis on the matrix. -/
+theorem iluk_slots_are_level_pattern (k : Nat) (ω : K) (A : CRS K) (F : IluFactors K)
+    (hF : (iluk k ω).setup A = .ok F) (i j : Nat) (hi : i < A.nrows) (hj : j < A.nrows) :
+    ilukSlotb F i j = patLevel A k i j :=
+  ilukSlotb_eq_patLevel k A F hF i j hi hj
+
+/-- the factors stay inside the level-of-fill pattern (verdict of the checker `factorsInPatternb`) -/
+theorem iluk_factors_in_level_pattern (k : Nat) (ω : K) (A : CRS K) (hA : A.WF) (hsq : A.ncols = A.nrows)
+    (F : IluFactors K) (hF : (iluk k ω).setup A = .ok F) :
+    factorsInPatternb (patLevel A k) F = true := by
+  obtain ⟨R, hT⟩ := ilukFactorT_of_factor k A F hF
+  obtain ⟨_, _, h3, h4, h5, h6, h7, h8, _, _, _⟩ := ilukFactorT_wf k A hA hsq F R hT
+  unfold factorsInPatternb
+  rw [Bool.and_eq_true, List.all_eq_true, List.all_eq_true]
+  constructor
+  · intro i hi
+    have hi' : i < A.nrows := by rw [← h5]; exact List.mem_range.mp hi
+    unfold rowInPatternb
+    rw [List.all_eq_true]
+    intro cv hcv
+    have hc : cv.1 < A.nrows := by rw [← h6]; exact K2.row_col_lt h3 i hcv
+    rw [← ilukSlotb_eq_patLevel k A F hF i cv.1 hi' hc]
+    have : (F.L.row i).any (fun e => e.1 == cv.1) = true := List.any_eq_true.mpr ⟨cv, hcv, by simp⟩
+    unfold ilukSlotb
+    rw [this]; simp
+  · intro i hi
+    have hi' : i < A.nrows := by rw [← h7]; exact List.mem_range.mp hi
+    unfold rowInPatternb
+    rw [List.all_eq_true]
+    intro cv hcv
+    have hc : cv.1 < A.nrows := by rw [← h8]; exact K2.row_col_lt h4 i hcv
+    rw [← ilukSlotb_eq_patLevel k A F hF i cv.1 hi' hc]
+    have : (F.U.row i).any (fun e => e.1 == cv.1) = true := List.any_eq_true.mpr ⟨cv, hcv, by simp⟩
+    unfold ilukSlotb
+    rw [this]; simp
+
+/-- **`iluk_on_level_pattern`: the ILU(k) clause of the property, with its exact side condition.**  If no discarded
+contribution went to a finally admitted position (`ilukNoLateSlotb`; the negation of finding K01) and the stored
+pivots are non-zero, then `((I+L)(D⁻¹+U))_ij = a_ij` on the level-of-fill `≤ k` pattern — the checker `luOnPatternb
+(patLevel A k)` answers `true`. -/
+theorem iluk_on_level_pattern (k : Nat) (ω : K) (A : CRS K) (hA : A.WF) (hsq : A.ncols = A.nrows)
+    (F : IluFactors K) (hF : (iluk k ω).setup A = .ok F) (hnl : ilukNoLateSlotb k A = true)
+    (hD : ∀ i, i < A.nrows → F.D.getD i 0 ≠ 0) :
+    (∀ i j, i < A.nrows → j < A.nrows → patLevel A k i j = true →
+        ∑ k' ∈ range A.nrows, lowEntry F i k' * upEntry F k' j = A.get i j)
+    ∧ luOnPatternb (patLevel A k) A F = true := by
+  have hmain : ∀ i j, i < A.nrows → j < A.nrows → patLevel A k i j = true →
+      ∑ k' ∈ range A.nrows, lowEntry F i k' * upEntry F k' j = A.get i j := by
+    intro i j hi hj hp
+    rw [← ilukSlotb_eq_patLevel k A F hF i j hi hj] at hp
+    exact iluk_on_pattern_of_no_late_discard k ω A hA hsq F hF hnl i j hi hj hp (fun hji => hD j (by omega))
+  refine ⟨hmain, ?_⟩
+  unfold luOnPatternb
+  rw [List.all_eq_true]; intro i hi
+  rw [List.all_eq_true]; intro j hj
+  cases hp : patLevel A k i j with
+  | false => rfl
+  | true =>
+    simp only [Bool.not_true, Bool.false_or, decide_eq_true_eq]
+    rw [luEntry_eq_sum]
+    exact hmain i j (List.mem_range.mp hi) (List.mem_range.mp hj) hp
 
 /-- **complete LU when nothing is discarded.**  `ilukNoDiscardb k A` (no call of `add` took the discarding branch)
 ⟹ `(I+L)(D⁻¹+U) = A` at every position. -/
@@ -883,6 +950,12 @@ theorem exFill1_D : ∀ i, i < exFill.nrows → exFill1.D.getD i 0 ≠ 0 := by d
 -- k = 0: contributions are discarded, but none at a position of the final pattern: the identity holds there
 example := iluk_on_pattern_of_no_late_discard 0 (1 : ℚ) exFill (by decide) rfl exFill0 (by exact exFill_iluk0)
   exFill_flags.2.1 2 0 (by decide) (by decide) exFill_flags.2.2.2.1 (fun _ => exFill0_D 0 (by decide))
+example := iluk_slots_are_level_pattern 0 (1 : ℚ) exFill exFill0 (by exact exFill_iluk0) 1 2 (by decide) (by decide)
+example : patLevel exFill 0 1 2 = false ∧ patLevel exFill 1 1 2 = true ∧ patLevel exK 1 3 4 = true := by decide +kernel
+example := iluk_on_level_pattern 0 (1 : ℚ) exFill (by decide) rfl exFill0 (by exact exFill_iluk0) exFill_flags.2.1
+  exFill0_D
+example := iluk_factors_in_level_pattern 1 (1 : ℚ) exK (by decide) rfl exKF
+  ((iluk_trace_exists 1 (1 : ℚ) exK exKF).mpr ⟨exKR, exK_ilukT⟩)
 -- k = 1 < n − 1: nothing is discarded (run predicate), complete LU and exact inverse
 example := iluk_exact_of_no_discard 1 (1 : ℚ) exFill (by decide) rfl exFill1 (by exact exFill_iluk1)
   exFill_flags.2.2.1 2 1 (by decide) (by decide) (fun _ => exFill1_D 1 (by decide))
